@@ -8,6 +8,8 @@ import Genq.Model.CodecSkel
 import Genq.Extracted.Codec
 import Genq.Model.Vars
 import Genq.Model.CodecIn
+import Genq.Model.ClientSkel
+import Genq.Extracted.Client
 namespace Genq.Vars
 
 /-- **C04_keys_subset** — the variables object has keys only for declared variables, each at most
@@ -111,3 +113,11 @@ example : encVars (.cons "tag,omitempty" false (.leaf .str) (.cons "n" false (.l
     = .ok (.obj [("n", .num "0")]) := rfl
 
 end Genq.Codec
+
+namespace Genq
+
+/-- **C04_operation_template_tie** — the generated helper fills Request{OpName, Query, Variables} from the
+    `__<Op>Input` struct exactly as the template in /repo says (regenerated on every run) -/
+theorem C04_operation_template_tie : Extracted.operationTmpl = ClientSkel.operationTmpl := rfl
+
+end Genq
